@@ -13,7 +13,8 @@ from ..report import AnalysisError
 
 SA = "matid.symmetry.symmetryanalyzer.SymmetryAnalyzer"
 FQ = SA + ".get_is_chiral"
-ROUNDERS = {"round", "numpy.rint", "numpy.round", "numpy.around", "numpy.round_", "numpy.sign", "int"}
+ROUNDERS = {"round", "numpy.rint", "numpy.round", "numpy.around", "numpy.round_", "numpy.sign"}
+TRUNCATORS = {"int", "numpy.trunc", "numpy.fix", "numpy.floor", "numpy.ceil", "math.trunc", "math.floor", "math.ceil"}
 CLOSE = {"numpy.isclose", "math.isclose", "numpy.allclose"}
 
 
@@ -27,7 +28,7 @@ def ext_name(M, fq, f):
 
 
 class DetKind:
-    FLOAT, ROUNDED, EXACT = "float", "rounded", "exact"
+    FLOAT, ROUNDED, EXACT, TRUNCATED = "float", "rounded", "exact", "truncated"
 
 
 def det_kind(M, fl, e, at, depth=0):
@@ -42,6 +43,15 @@ def det_kind(M, fl, e, at, depth=0):
             inner = det_kind(M, fl, e.args[0], at, depth + 1)
             if inner:
                 return (DetKind.ROUNDED, inner[1])
+        if name in TRUNCATORS and e.args:
+            # int(-0.9999999999999998) == 0: truncation of a float determinant is as fragile as float equality
+            inner = det_kind(M, fl, e.args[0], at, depth + 1)
+            if inner:
+                return (inner[0] if inner[0] != DetKind.FLOAT else DetKind.TRUNCATED, inner[1])
+        if isinstance(e.func, ast.Attribute) and e.func.attr == "astype" and isinstance(e.func.value, ast.AST):
+            inner = det_kind(M, fl, e.func.value, at, depth + 1)
+            if inner:
+                return (inner[0] if inner[0] != DetKind.FLOAT else DetKind.TRUNCATED, inner[1])
         # repo helper returning an exact integer determinant
         callees = M.callees_of_call(FQ, e)
         for c in callees:
@@ -110,7 +120,7 @@ def classify(M, fl, cond, at):
         if isinstance(op, (ast.Lt, ast.LtE, ast.Gt, ast.GtE)):
             less = isinstance(op, (ast.Lt, ast.LtE)) != flip
             if -1 < c < 1:
-                return ("improper" if less else "proper", True, subject, norm(cond))
+                return ("improper" if less else "proper", kind != DetKind.TRUNCATED, subject, norm(cond))
             return ("none", True, subject, norm(cond))
     return None
 
@@ -224,10 +234,34 @@ def run(rep, ctx):
 
     if not verdicts:
         raise AnalysisError("get_is_chiral: no determinant test recognised in the scan over the rotations")
+    # where do the matrices come from? The rotations in spglib's Hall database are 7388 fixed integer matrices in standard
+    # settings; np.linalg.det of each of them is *exactly* +-1.0 (enumerated below), so equality tests are sound for them.
+    # The rotations of the dataset are expressed in the user's basis, where LU decomposition gives -1.0000000000000002 etc.
+    sl0 = fl.slice(iter_expr, iter_at)
+    from_db = any(isinstance(c, ast.Call) and ext_name(M, FQ, c.func) == "spglib.get_symmetry_from_database" for e in sl0["exprs"] for c in ast.walk(e)) \
+        and not any(isinstance(x, ast.Attribute) and x.attr == "rotations" for e in sl0["exprs"] for x in ast.walk(e))
+    if from_db:
+        import numpy as _np
+        import spglib as _sp
+        nmat = nbad = 0
+        for h in range(1, 531):
+            for r in _sp.get_symmetry_from_database(h)["rotations"]:
+                nmat += 1
+                d = float(_np.linalg.det(r))
+                if d not in (1.0, -1.0) or int(d) != round(d):
+                    nbad += 1
+        rep.count("database_rotation_matrices", nmat)
+        if nbad:
+            from_db = False
+            rep.note(f"{nbad} database rotations have an inexact floating-point determinant: equality tests are treated as fragile")
+        else:
+            rep.ok("R15.1", f"all {nmat} rotation matrices of the Hall database have a floating-point determinant of exactly +-1.0")
     for (meaning, robust, subject, text), node, fire, other in verdicts:
         construct = f"get_is_chiral test `{text}`"
-        if not robust:
-            rep.violation("R15.1", construct, "compares the floating-point result of np.linalg.det with ==/!=: for integer "
+        if not robust and from_db:
+            rep.ok("R15.1", construct + " is exact on the database rotations (standard settings)")
+        elif not robust:
+            rep.violation("R15.1", construct, "compares the floating-point result of np.linalg.det (or its truncation int()/floor) with ==/!=: for integer "
                           "rotation matrices in a sheared basis LU decomposition gives e.g. -1.0000000000000249, so improper "
                           "operations are missed and an achiral crystal is reported chiral", M.where(FQ, node))
         else:
@@ -268,31 +302,44 @@ def run(rep, ctx):
     else:
         rep.ok("R15.2", "the scan ranges over the whole rotation array")
     src_calls = [c for e in sl["exprs"] for c in ast.walk(e) if isinstance(c, ast.Call)]
-    ok_src = False
-    for c in src_calls:
-        for callee in M.callees_of_call(FQ, c):
-            if callee.split(".")[-1] in ("get_symmetry_operations", "get_rotations", "get_symmetry_dataset"):
-                ok_src = True
-    has_rot = any((isinstance(s, ast.Constant) and s.value == "rotations") or (isinstance(s, ast.Attribute) and s.attr == "rotations")
-                  or (isinstance(s, ast.Call) and isinstance(s.func, ast.Attribute) and s.func.attr == "get_rotations")
-                  for e in sl["exprs"] for s in ast.walk(e))
-    if ok_src and has_rot:
-        rep.ok("R15.3", "rotations <- self.get_symmetry_operations()/dataset.rotations")
+    # R15.3: the scanned rotations must be the operations of the detected space-group *type*.
+    # spglib API knowledge: dataset.rotations (= get_symmetry_operations()/get_rotations()) are the operations of the
+    # *input cell*; for a supercell whose lattice breaks the point symmetry (1x2x1 of a tetragonal crystal) they are a
+    # proper subgroup, so the improper operations of an achiral group can all be missing while dataset.number is unchanged.
+    db = [c for c in src_calls if ext_name(M, FQ, c.func) == "spglib.get_symmetry_from_database"]
+    cellops = [c for c in src_calls if any(cal.split(".")[-1] in ("get_symmetry_operations", "get_rotations") for cal in M.callees_of_call(FQ, c))]
+    cellops += [x for e in sl["exprs"] for x in ast.walk(e) if isinstance(x, ast.Attribute) and x.attr == "rotations"
+                and not any(x in ast.walk(c) for c in db)]
+    has_rot = any((isinstance(s2, ast.Constant) and s2.value == "rotations") or (isinstance(s2, ast.Attribute) and s2.attr == "rotations")
+                  for e in sl["exprs"] for s2 in ast.walk(e))
+    if db and has_rot and not cellops:
+        a0 = db[0].args[0] if db[0].args else None
+        hs = fl.slice(a0, iter_at) if a0 is not None else {"exprs": []}
+        from_hall = any((isinstance(c, ast.Call) and isinstance(c.func, ast.Attribute) and c.func.attr == "get_hall_number")
+                        or (isinstance(c, ast.Attribute) and c.attr == "hall_number") for e in hs["exprs"] for c in ast.walk(e))
+        if from_hall:
+            rep.ok("R15.3", "rotations <- spglib.get_symmetry_from_database(hall number of the detected group)")
+        else:
+            rep.violation("R15.3", "get_is_chiral rotation source", f"the database is queried with `{norm(a0) if a0 is not None else None}`, not with "
+                          "the Hall number of the analyzer's own dataset", M.where(FQ, db[0]))
+    elif cellops:
+        rep.violation("R15.3", "get_is_chiral rotation source", f"`{norm(iter_expr)}` scans the symmetry operations of the *input cell* "
+                      "(dataset.rotations). For a supercell whose lattice does not keep the point symmetry these are a proper subgroup of the "
+                      "space group: a 1x2x1 supercell of a P-4 crystal is still detected as group 81 but has no improper operation left, so it "
+                      "is reported chiral", M.where(FQ, iter_expr))
     else:
-        rep.violation("R15.3", "get_is_chiral rotation source", f"`{norm(iter_expr)}` does not come from the analyzer's own "
-                      "symmetry dataset (rotations)", M.where(FQ, iter_expr))
-    # the operations getter reads the same dataset as the number getter
-    for g in ("get_symmetry_operations", "get_rotations"):
-        q = SA + "." + g
-        if q in M.defs:
-            body = ast.unparse(M.defs[q])
-            calls = [c for c in ast.walk(M.defs[q]) if isinstance(c, ast.Call) and isinstance(c.func, ast.Attribute)
-                     and c.func.attr == "get_symmetry_dataset"]
-            attrs = [a for a in ast.walk(M.defs[q]) if isinstance(a, ast.Attribute) and a.attr == "rotations"]
-            if calls and attrs:
-                rep.ok("R15.3", f"{g} reads dataset.rotations of get_symmetry_dataset()")
-            else:
-                rep.violation("R15.3", f"{g} source", "does not read `rotations` of self.get_symmetry_dataset()", M.where(q))
+        rep.violation("R15.3", "get_is_chiral rotation source", f"`{norm(iter_expr)}` is not the operation list of the detected space group",
+                      M.where(FQ, iter_expr))
+    hn = SA + ".get_hall_number"
+    if hn in M.defs and any(isinstance(x, ast.Attribute) and x.attr == "hall_number" for x in ast.walk(M.defs[hn])) and \
+            any(isinstance(c, ast.Call) and isinstance(c.func, ast.Attribute) and c.func.attr == "get_symmetry_dataset" for c in ast.walk(M.defs[hn])):
+        rep.ok("R15.3", "get_hall_number reads dataset.hall_number of get_symmetry_dataset()")
+    else:
+        rep.violation("R15.3", "get_hall_number source", "does not read `hall_number` of self.get_symmetry_dataset()", M.where(hn))
+    rep.rule("R15.4", "every memoised result of the analyzer is dropped by reset(), which set_system() calls (no answers for a previous structure)")
+    with rep.guard("R15.4"):
+        from .. import symrules as _SR
+        _SR.reset_covers_caches(rep, ctx.model, "R15.4")
     rep.floor("R15.1", 1)
     rep.floor("R15.2", 2)
     rep.floor("R15.3", 2)
